@@ -152,6 +152,25 @@ def _dealias_read_only_attrs(ct: ClassTable) -> int:
     return n_done
 
 
+class Parts:
+    """Runs the independent rule groups of a property one after the other: a group that cannot be decided
+    (AnalysisError) does not keep the others from being decided and reported; `finish()` re-raises what was collected."""
+
+    def __init__(self):
+        self.errors: list[str] = []
+
+    def __call__(self, fn, *a, **k):
+        try:
+            return fn(*a, **k)
+        except AnalysisError as e:
+            self.errors.append(str(e))
+            return None
+
+    def finish(self):
+        if self.errors:
+            raise AnalysisError("; ".join(dict.fromkeys(self.errors)))
+
+
 def parents_of(root: ast.AST) -> dict[int, ast.AST]:
     p = {}
     for n in ast.walk(root):
